@@ -355,7 +355,7 @@ func FormatEmail(s string) Tri {
 	return Unknown
 }
 
-var reURIYes = regexp.MustCompile(`^[a-z][a-z0-9]*://[A-Za-z0-9]+([.-][A-Za-z0-9]+)*(:\d{1,4})?(/[A-Za-z0-9._~-]*)*(\?[A-Za-z0-9=&._~-]*)?(#[A-Za-z0-9._~-]*)?$`)
+var reURIYes = regexp.MustCompile(`^[a-z][a-z0-9]*://(([A-Za-z0-9._~-]|%[0-9A-Fa-f]{2})+(:([A-Za-z0-9._~-]|%[0-9A-Fa-f]{2})*)?@)?[A-Za-z0-9]+([.-][A-Za-z0-9]+)*(:\d{1,4})?(/[A-Za-z0-9._~-]*)*(\?[A-Za-z0-9=&._~-]*)?(#[A-Za-z0-9._~-]*)?$`)
 
 var reURIAuthority = regexp.MustCompile(`^[a-z][a-z0-9]*://([^/?#]*)`)
 var reURIPortOnly = regexp.MustCompile(`^(:[0-9]*)?$`)
